@@ -280,3 +280,36 @@ Definition init_sys (fa fb : Z * Z * Z * Z * Z) (oa ob : Z) : sys :=
 
 Definition is_inject (ev : event) : bool := match ev with Inject _ _ _ => true | _ => false end.
 Definition honest (evs : list event) : bool := forallb (fun e => negb (is_inject e)) evs.
+
+(* ---------- the whole dispatch rule for one tunnel (dispatch.go Dispatch, after parsing) ----------
+   tunnel lookup; ZLB -> RecvZLB; any other message -> Recv, and only then — if accepted — the handler
+   of its message type.  What a handler does is left arbitrary: all the channel can notice of it is
+   which messages it submits (m_replies: body, session id) and whether it unregisters the tunnel
+   (m_removes, e.g. StopCCN).  Session lookups, FSM errors etc. happen inside the handler, i.e. after
+   the receive step. *)
+Record node := mkN { n_known : bool;       (* the tunnel is registered *)
+                     n_ep : endpoint }.
+Record inmsg := mkM { m_tid_ok : bool;     (* the header's tunnel id names this tunnel (and it is not an SCCRQ) *)
+                      m_pkt : pkt;
+                      m_replies : list (Z * Z);
+                      m_removes : bool }.
+
+Definition ep_submits (e : endpoint) (rs : list (Z * Z)) (now : Z) : endpoint :=
+  fold_left (fun e r => fst (ep_submit e (fst r) (snd r) now)) rs e.
+
+Definition node_dispatch (n : node) (m : inmsg) (now : Z) : node :=
+  if n_known n && m_tid_ok m then
+    let '(e1, ob) := ep_deliver false (n_ep n) (m_pkt m) now in
+    match ob with
+    | ODeliver true _ => mkN (negb (m_removes m)) (ep_submits e1 (m_replies m) now)
+    | _ => mkN true e1
+    end
+  else n.
+
+Inductive nevent := NMsg (m : inmsg) (now : Z) | NTick (now : Z).
+Definition node_step (n : node) (ev : nevent) : node :=
+  match ev with
+  | NMsg m now => node_dispatch n m now
+  | NTick now => mkN (n_known n) (fst (ep_tick (n_ep n) now))
+  end.
+Definition node_run (n : node) (evs : list nevent) : node := fold_left node_step evs n.
